@@ -1,7 +1,7 @@
 (** C12 — multiple traces: isolated, addressable by id, loaded set stays consistent.
     Statements only; proofs in proofs/TraceProofs.v and proofs/NavProofs.v. *)
 From WalModel Require Import Eval.
-From WalModel.proofs Require Import NavProofs TraceProofs.
+From WalModel.proofs Require Import NavProofs TraceProofs ContInv.
 Local Open Scope Z_scope.
 
 (** tid^name yields exactly what name yields when only trace tid is loaded (value, width,
@@ -55,3 +55,23 @@ Proof. exact failed_loads_change_nothing. Qed.
 Print Assumptions failed_load_is_noop.
 
 Example count_nonvacuous : count_ok empty_container. Proof. reflexivity. Qed.
+
+(** the loaded set stays consistent through EVERY completed evaluation, not only load/unload sequences:
+    trace ids are distinct, every trace is filed under its own id, and the count of loaded traces equals the
+    number of traces (proofs/ContInv.v: one lemma per operator, the whole evaluator by induction on fuel) *)
+Theorem every_evaluation_keeps_the_loaded_set_consistent : forall lf fuel e st v st',
+  eval lf fuel e st = Ok v st' -> ContInv.cwf (st_cont st) -> ContInv.cwf (st_cont st').
+Proof. exact ContInv.eval_keeps_container_wf. Qed.
+Print Assumptions every_evaluation_keeps_the_loaded_set_consistent.
+
+Theorem consistent_means : forall c, ContInv.cwf c <->
+  NoDup (map fst (c_traces c)) /\ (forall k t, In (k, t) (c_traces c) -> tr_tid t = k) /\ c_ntraces c = zlen (c_traces c).
+Proof. exact ContInv.cwf_parts. Qed.
+Print Assumptions consistent_means.
+
+(** ... hence in every state reachable from a new interpreter by any sequence of API operations
+    (load, step, eval with any pass selection and keyword arguments, run); a failing operation ends the session *)
+Theorem every_reachable_state_is_consistent : forall ops,
+  ContInv.cwf (st_cont (fold_left ContInv.apply_api ops Api.empty_state)).
+Proof. exact ContInv.reachable_states_well_formed. Qed.
+Print Assumptions every_reachable_state_is_consistent.
